@@ -234,7 +234,7 @@ func init() {
 
 func init() {
 	tcBounds := map[string]string{
-		"threads":    "N tasks (quick 2, thorough 3), each of symbolic kind (normal / skipped because its output exists / streaming output) and symbolic core count 1..max",
+		"threads":    "bounded composition: N = 2 tasks of symbolic kind (normal / skipped because its output exists / streaming output) and symbolic core count 1..max, plus N = 3 with pinned kinds (C06 quick) and N = 3 with all kinds (C06 thorough); inductive variant (no step bound): N = 2..3 quick, 2..5 thorough",
 		"slots":      "maxConcurrentTasks symbolic in 1..M (quick M=3, thorough M=3)",
 		"schedule":   "one solver variable per step choosing the thread that moves, N x (longest thread) steps: every interleaving of the token-by-token acquisition is covered",
 		"thread ops": "extracted on this run from the real Task.Execute / IncConcurrentTasks / DecConcurrentTasks for every (kind, cores)",
@@ -252,7 +252,7 @@ func init() {
 			{Pkg: "scipipe", Fn: "VxTcThread", Params: p("kind", 0, "cores", 2, "max", 3), MustReach: []string{"traced"}, MustAssert: []string{"C06.capacity-is-maxConcurrentTasks"}},
 			{Pkg: "scipipe", Fn: "VxH06run", Params: p("n", 3, "max", 3, "preempt", 2), MustReach: []string{"ran"}, MustAssert: []string{"C06.all-slots-returned"}},
 		},
-		TCQuick: [2]int{2, 3}, TCThorough: [2]int{3, 3},
+		TCQuick: [2]int{2, 3}, TCThorough: [2]int{3, 3}, TCInductN: 3, TCInductNThorough: 5,
 		Bounds: tcBounds, Outside: []string{"more than 3 concurrent tasks, more than 3 slots in the bounded model checking"}, Assumptions: as,
 		Stubs: []string{"slot channel and slot mutex in trace mode (operations recorded), command model marks B/E"}})
 	regCheck(&Check{ID: "C07",
@@ -264,7 +264,7 @@ func init() {
 			{Pkg: "scipipe", Fn: "VxH07oversize", MustReach: []string{"ran"}, MustAssert: []string{"C07.oversize-rejected-not-hanging", "C07.fitting-cores-run"}},
 			{Pkg: "scipipe", Fn: "VxH06run", Params: p("n", 3, "max", 3, "preempt", 2), MustReach: []string{"ran"}, MustAssert: []string{"C07.no-deadlock"}},
 		},
-		TCQuick: [2]int{2, 3}, TCThorough: [2]int{3, 3},
+		TCQuick: [2]int{2, 3}, TCThorough: [2]int{2, 3}, TCInductN: 3, TCInductNThorough: 5,
 		Bounds: tcBounds, Outside: []string{"more than 3 concurrent tasks, more than 3 slots in the bounded model checking", "fairness of the Go scheduler"}, Assumptions: as,
 		Stubs: []string{"slot channel and slot mutex in trace mode (operations recorded), command model marks B/E"}})
 }
